@@ -17,6 +17,7 @@
  *   10 set_output(queue sink, S1)   11 set_output(queue sink, NULL)     (pseudo-output: only a reference is kept)
  *   12 register a sink-latency request on the queue sink   13 unregister it   14 the consumer-side sink answers what is
  *   lodged with it   15 producer oob callback (answers travelling back)          (C12 across the queue)
+ *   16 set_max_length(queue sink, symbolic) + get   17 every getter of both pipes               (C20)
  * After the script both pipes are released (if not yet) and the loops run until nothing is ready. */
 #define ENV_WITH_UPUMP 1
 #define ENV_SINK_HOOKS 1
@@ -93,6 +94,8 @@ static bool qsrc_dead, qsink_released, qsrc_released, flushed;
 static struct uref *sent_uref[MAXIN];
 static int sent_def[MAXIN];             /* flow definition in force when the buffer was sent */
 static unsigned n_sent, delivered;
+static unsigned int max_length;         /* of the queue sink's spool (helper_input default: 0) */
+static struct upipe *pseudo;            /* the queue sink's pseudo-output */
 static int cur_def = -1;                /* at the producer */
 static int sink_def = -1;               /* last definition accepted by the consumer-side sink */
 
@@ -234,9 +237,11 @@ int main(void)
                 break;
             case 10:        /* the queue sink's pseudo-output (a stored reference, nothing is sent to it) */
                 VASSERT(ubase_check(upipe_set_output(QSINK, &env_sinks[1].upipe)), "pseudo-output accepted");
+                pseudo = &env_sinks[1].upipe;
                 break;
             case 11:
                 VASSERT(ubase_check(upipe_set_output(QSINK, NULL)), "pseudo-output removed");
+                pseudo = NULL;
                 break;
             case 12:
                 VASSERT(ubase_check(upipe_register_request(QSINK, &RQ)), "request accepted by the queue sink");
@@ -260,6 +265,27 @@ int main(void)
             case 15:
                 (void)run_cb(4);
                 break;
+            case 16: {      /* C20: setter then getter (symbolic value, getter output pre-loaded with symbolic junk) */
+                unsigned int v = nd_u32(), g = nd_u32();
+                VASSERT(ubase_check(upipe_set_max_length(QSINK, v)), "set_max_length accepted");
+                max_length = v;
+                VASSERT(ubase_check(upipe_get_max_length(QSINK, &g)) && g == v, "C20: get_max_length returns the value that was set");
+                break;
+            }
+            case 17: {      /* C20: getters only -- they report what is in force and change nothing (monitors keep running) */
+                unsigned int g = nd_u32();
+                struct upipe *o = (struct upipe *)&env_probe;      /* junk */
+                struct uref *f = NULL;
+                VASSERT(ubase_check(upipe_get_max_length(QSINK, &g)) && g == max_length, "C20: get_max_length reports the length in force");
+                g = nd_u32();
+                VASSERT(ubase_check(upipe_qsrc_get_max_length(QSRC, &g)) && g == LEN, "C20: the queue source reports the length it was created with");
+                g = nd_u32();
+                VASSERT(ubase_check(upipe_qsrc_get_length(QSRC, &g)) && g <= LEN, "C20: the queue never reports more elements than its length");
+                VASSERT(ubase_check(upipe_get_output(QSRC, &o)) && o == &env_sinks[0].upipe, "C20: get_output returns the connected output");
+                VASSERT(ubase_check(upipe_get_output(QSINK, &o)) && o == pseudo, "C20: get_output of the queue sink returns its pseudo-output");
+                (void)upipe_get_flow_def(QSRC, &f);
+                break;
+            }
             default:
                 (void)run_cb(ops[k] - 6);
                 break;
